@@ -141,6 +141,23 @@ impl KindOut {
     }
 }
 
+/// logs the drop of the receiver also when it happens in the unwind of a cancelled coroutine
+struct RxDrop {
+    rx: Option<Rx>,
+    log: Log,
+    ai: usize,
+    idx: usize,
+}
+impl Drop for RxDrop {
+    fn drop(&mut self) {
+        if let Some(r) = self.rx.take() {
+            let c = self.log.call(self.ai, self.idx, R_DROP);
+            drop(r);
+            self.log.ret(c, OK, 0);
+        }
+    }
+}
+
 pub fn run(case: &Case) -> Outcome {
     let kind = case.cfg(0);
     let drain = case.cfg(1) == 1;
@@ -212,10 +229,15 @@ pub fn run(case: &Case) -> Outcome {
         rxs.push(rx0);
     }
 
-    let hold = case.cfg(2) == 1 && drain;
+    let hold = case.cfg(2) == 1 && drain && !case.actors.iter().any(|a| a.role == 9);
     let held_gave_up = std::sync::Arc::new(std::sync::atomic::AtomicBool::new(false));
     let mut handles = vec![];
+    let mut handle_actor: Vec<usize> = vec![];
     for (ai, a) in case.actors.iter().enumerate() {
+        if a.role == 9 {
+            continue;
+        }
+        handle_actor.push(ai);
         let (log, states, ledger) = (log.clone(), states.clone(), ledger.clone());
         let ops = a.ops.clone();
         let b = base[ai];
@@ -286,8 +308,8 @@ pub fn run(case: &Case) -> Outcome {
             let rx = rxs.pop().unwrap();
             handles.push(spawn(a.ctx, "receiver", move || {
                 let _dg = DoneGuard(&states, ai);
-                let mut rx = Some(rx);
                 let nops = ops.len();
+                let mut rxg = RxDrop { rx: Some(rx), log: log.clone(), ai, idx: nops + 1 };
                 let got = |r: Result<Tok, i64>| -> (i64, i64) {
                     match r {
                         Ok(t) => {
@@ -299,7 +321,7 @@ pub fn run(case: &Case) -> Outcome {
                 };
                 for (i, op) in ops.iter().enumerate() {
                     states.enter(ai, i, op.0);
-                    match (op.0, rx.as_ref()) {
+                    match (op.0, rxg.rx.as_ref()) {
                         (R_RECV, Some(r)) => {
                             let c = log.call(ai, i, R_RECV);
                             let (res, v) = got(r.recv());
@@ -319,19 +341,19 @@ pub fn run(case: &Case) -> Outcome {
                         (R_SLEEP, _) => sleep_ns(op.1 as u64 * 1000),
                         (R_DROP, Some(_)) => {
                             let c = log.call(ai, i, R_DROP);
-                            rx = None;
+                            drop(rxg.rx.take());
                             log.ret(c, OK, 0);
                         }
                         _ => {}
                     }
                     states.leave(ai, i);
                 }
-                if let Some(r) = rx.take() {
+                if rxg.rx.is_some() {
                     if drain {
                         states.enter(ai, nops, R_DRAIN);
                         loop {
                             let c = log.call(ai, nops, R_DRAIN);
-                            let (res, v) = got(r.recv());
+                            let (res, v) = got(rxg.rx.as_ref().unwrap().recv());
                             log.ret(c, res, v);
                             if res != OK {
                                 break;
@@ -339,24 +361,40 @@ pub fn run(case: &Case) -> Outcome {
                         }
                     }
                     states.enter(ai, nops + 1, R_DROP);
-                    let c = log.call(ai, nops + 1, R_DROP);
-                    drop(r);
-                    log.ret(c, OK, 0);
+                    drop(rxg);
                 }
             }));
         }
     }
+    // cancellers (role 9) cancel coroutine receivers at generated times
+    let mut cos: Vec<Option<may::coroutine::Coroutine>> = vec![None; case.actors.len()];
+    for (ai, h) in handle_actor.iter().zip(handles.iter()) {
+        if case.actors[*ai].role == 1 {
+            cos[*ai] = h.coroutine().cloned();
+        }
+    }
+    let cancellers = crate::fam::mutex::spawn_cancellers(case, &cos);
+    let targets = crate::fam::mutex::cancel_targets(case);
     let mut ends = vec![];
     for h in handles {
         ends.push(h.join());
+    }
+    for c in cancellers {
+        let _ = c.join();
     }
     crate::child::settle();
 
     // ---------------- oracle ----------------
     let mut out = KindOut { out, kind };
+    let mut cancelled_rx = 0;
     for (i, e) in ends.iter().enumerate() {
+        let ai = handle_actor[i];
+        if matches!(e, End::Cancel) && targets.contains(&ai) && case.actors[ai].role == 1 {
+            cancelled_rx += 1;
+            continue;
+        }
         if !e.is_ok() {
-            out.fail("actor-ended-abnormally", format!("actor {i} {}", e.kind()));
+            out.fail("actor-ended-abnormally", format!("actor {ai} {}", e.kind()));
         }
     }
     let obs = log.take();
@@ -482,7 +520,7 @@ pub fn run(case: &Case) -> Outcome {
     }
     // drain mode: nobody dropped a receiver early, so everything sent must have been received
     let early_rx_drop = case.actors.iter().any(|a| a.role == 1 && a.ops.iter().any(|o| o.0 == R_DROP));
-    if drain && !early_rx_drop {
+    if drain && !early_rx_drop && cancelled_rx == 0 {
         for id in 0..total {
             if sent_ok[id] && recv_by[id].is_none() {
                 out.fail("sent-but-never-received", format!("id {id}: all receivers drained until Disconnected"));
@@ -516,6 +554,7 @@ pub fn run(case: &Case) -> Outcome {
         out.fail(&format!("{}.receiver-not-woken-by-send", kind_name(kind)), "a sender kept the channel connected for 10 virtual s and what it had sent was still not received".into());
     }
     out.flag_if(hold, "senders_hold_until_received");
+    out.flag_if(cancelled_rx > 0, "receiver_cancelled");
     out.flag_if(obs.iter().any(|o| o.res == SENDERR || o.res == SENDERR_BAD), "send_error");
     out.flag_if(obs.iter().any(|o| o.res == DISC), "disconnected_seen");
     out.flag_if(obs.iter().any(|o| o.res == TIMEOUT), "timeout_seen");
@@ -576,7 +615,8 @@ pub fn strategy(g: &GenCfg, bias: u8) -> BoxedStrategy<Case> {
         let receivers = proptest::collection::vec((0u8..2, recv_ops), n_r);
         // C06: always drain; C07: mostly drain (the disconnect must be observed), sometimes not
         let drain = if bias == 1 { prop_oneof![4 => Just(1i64), 1 => Just(0i64)].boxed() } else { Just(1i64).boxed() };
-        (senders, receivers, (drain, 0u8..3), gen::config(&g), gen::schedule(&g, false)).prop_map(move |(s, r, (drain, h), (workers, pool, feat), sched)| {
+        let canc = if bias == 1 { crate::fam::mutex::canceller_strategy(6, 3_000_000) } else { Just(None).boxed() };
+        (senders, receivers, (drain, 0u8..3), gen::config(&g), gen::schedule(&g, false), canc).prop_map(move |(s, r, (drain, h), (workers, pool, feat), sched, canc)| {
             // holding is only sound when somebody keeps receiving until the disconnect
             let hold = (h == 0 && drain == 1 && !r.iter().any(|(_, ops)| ops.iter().any(|o| o.0 == R_DROP))) as i64;
             let mut actors = vec![];
@@ -585,6 +625,16 @@ pub fn strategy(g: &GenCfg, bias: u8) -> BoxedStrategy<Case> {
             }
             for (ctx, ops) in r {
                 actors.push(Actor { ctx, role: 1, ops });
+            }
+            // (a canceller only makes sense with a coroutine receiver among its targets)
+            if let Some(mut c) = canc {
+                let n = actors.len() as u32;
+                for o in c.ops.iter_mut() {
+                    o.1 %= n;
+                }
+                if c.ops.iter().any(|o| actors[o.1 as usize].role == 1 && actors[o.1 as usize].ctx == CO) {
+                    actors.push(c);
+                }
             }
             Case { fam: "chan".into(), workers, pool, feat, cfg: vec![kind, drain, hold, (kind == 2 && h == 1) as i64], actors, sched, weak: 0 }
         })
